@@ -191,29 +191,13 @@ func c06ViaContent(c *Ctx) {
 	}
 	// CreateBranch
 	if bf := c.fn(rule, "CreateBranch"); bf != nil {
-		var nr ssa.CallInstruction
-		for _, cs := range w.callsIn(bf, "github.com/google/uuid.NewRandom") {
-			nr = cs.In
-		}
+		good, nr, why := w.randomText(bf, "z9hG4bK", 0)
 		if nr == nil {
 			c.bad(rule, "CreateBranch/source", w.pos(bf.Pos()), "CreateBranch does not draw from uuid.NewRandom()")
 		} else {
-			keep := w.under(assumeAtom(errNil(nr), true))
-			good := false
-			for _, r := range returnsUnder(bf, keep) {
-				vs := valuesUnder(bf, r.Results[0], keep)
-				good = allVals(vs, func(v ssa.Value) bool {
-					sv := w.evalStr(v, senv{}, 0)
-					if len(sv.parts) != 2 || sv.parts[0].Lit != "z9hG4bK" || sv.parts[1].Leaf == nil {
-						return false
-					}
-					return localDerives(sv.parts[1].Leaf, func(x ssa.Value) bool { return isResultOf(x, nr, 0) })
-				})
-				good = good && allVals(valuesUnder(bf, r.Results[1], keep), func(v ssa.Value) bool { return nilUnder(v, nr) })
-			}
-			c.check(good, rule, "CreateBranch/cookie-plus-random", w.pos(bf.Pos()), "branch = z9hG4bK + text derived from a fresh random UUID", "CreateBranch does not return the literal cookie z9hG4bK followed by text derived from uuid.NewRandom()")
-			okE, why := w.errPropagated(bf, nr)
-			c.check(okE, rule, "CreateBranch/error", w.ipos(nr), "a failing generator is reported", "a failing UUID generator is not reported: "+why)
+			c.check(good, rule, "CreateBranch/cookie-plus-random", w.pos(bf.Pos()), "branch = z9hG4bK + text derived from a fresh random UUID", "CreateBranch does not return the literal cookie z9hG4bK followed by text derived from uuid.NewRandom()"+why)
+			okE, whyE := w.errPropagated(bf, nr)
+			c.check(okE, rule, "CreateBranch/error", w.ipos(nr), "a failing generator is reported", "a failing UUID generator is not reported: "+whyE)
 		}
 	}
 	c.floor(rule, 10)
@@ -844,4 +828,55 @@ func c06LearnTable(c *Ctx) {
 		}
 		c.check(good && n > 0, rule, "isSameTransport/compares-protocol-address-port", w.pos(st.Pos()), "same listener = same protocol, address and port", "isSameTransport reports two transports as the same without comparing protocol, address and port of both: a host that moved to a listener differing only in the part not compared keeps its stale route")
 	}
+}
+
+
+// randomText: under the success of its random source, fn returns (prefix + text derived from that source, nil) and
+// reports the source's failure. The source is a call of uuid.NewRandom in fn, or a call of another package function of
+// which the same holds with an empty prefix (CreateBranch built on CreateTag).
+func (w *World) randomText(fn *ssa.Function, prefix string, depth int) (bool, ssa.CallInstruction, string) {
+	var nr ssa.CallInstruction
+	for _, cs := range w.callsIn(fn, "github.com/google/uuid.NewRandom") {
+		nr = cs.In
+	}
+	if nr == nil && depth < 2 {
+		for _, cs := range w.callsIn(fn) {
+			g := cs.In.Common().StaticCallee()
+			if g == nil || !w.isMain(g) || g == fn || g.Blocks == nil || g.Signature.Results().Len() != 2 || errIndex(cs.In) != 1 {
+				continue
+			}
+			if ok, src, _ := w.randomText(g, "", depth+1); ok && src != nil {
+				if okE, _ := w.errPropagated(g, src); okE {
+					nr = cs.In
+				}
+			}
+		}
+	}
+	if nr == nil {
+		return false, nil, ""
+	}
+	keep := w.under(assumeAtom(errNil(nr), true))
+	good := false
+	for _, r := range returnsUnder(fn, keep) {
+		if len(r.Results) != 2 {
+			return false, nr, ""
+		}
+		vs := valuesUnder(fn, r.Results[0], keep)
+		good = allVals(vs, func(v ssa.Value) bool {
+			sv := w.evalStr(v, senv{}, 0)
+			parts := sv.parts
+			if prefix != "" {
+				if len(parts) != 2 || parts[0].Lit != prefix {
+					return false
+				}
+				parts = parts[1:]
+			}
+			if len(parts) != 1 || parts[0].Leaf == nil {
+				return false
+			}
+			return localDerives(parts[0].Leaf, func(x ssa.Value) bool { return isResultOf(x, nr, 0) })
+		})
+		good = good && allVals(valuesUnder(fn, r.Results[1], keep), func(v ssa.Value) bool { return nilUnder(v, nr) })
+	}
+	return good, nr, ""
 }
